@@ -9,7 +9,8 @@ FRONTS = ['lp', 'socp', 'gcp', 'ro', 'dro']
 KINDS = ['st_foreign_lin', 'st_foreign_bound', 'st_foreign_abs', 'st_foreign_norm', 'mix_vars', 'obj_foreign', 'obj_redefine_min', 'obj_redefine_max',
          'obj_nonscalar', 'get_unsolved', 'varget_unsolved', 'get_after_fail', 'varget_after_fail', 'st_not_a_constraint',
          'forall_foreign_set', 'st_foreign_robust', 'ambiguity_after_constraints',
-         'robobj_redefine_lo', 'robobj_redefine_hi', 'robobj_nonscalar_lo', 'robobj_nonscalar_hi', 'robobj_foreign_set_lo', 'robobj_foreign_set_hi', 'st_foreign_maxof', 'st_foreign_minof', 'st_foreign_Emaxof']
+         'robobj_redefine_lo', 'robobj_redefine_hi', 'robobj_nonscalar_lo', 'robobj_nonscalar_hi', 'robobj_foreign_set_lo', 'robobj_foreign_set_hi', 'st_foreign_maxof', 'st_foreign_minof', 'st_foreign_Emaxof',
+         'concat_foreign_first', 'concat_foreign_last', 'rstack_foreign', 'vec_foreign', 'sumsqr_two_foreign']
 
 
 def run(rep, tier, props):
@@ -35,7 +36,7 @@ def run(rep, tier, props):
         stats['by_kind'][c['kind']] = stats['by_kind'].get(c['kind'], 0) + 1
         if r['misuse'] == 'accepted':
             stats['accepted'] += 1
-            _emit(rep, dict(sig='C17:misuse-accepted:%s:%s' % (c['kind'], c['f'] if c['kind'] not in ('st_foreign_lin', 'st_foreign_bound', 'st_foreign_abs', 'st_foreign_norm', 'mix_vars', 'obj_foreign', 'st_foreign_robust', 'forall_foreign_set', 'robobj_foreign_set_lo', 'robobj_foreign_set_hi', 'st_foreign_maxof', 'st_foreign_minof', 'st_foreign_Emaxof') else c['f'] + '<-' + c['g']),
+            _emit(rep, dict(sig='C17:misuse-accepted:%s:%s' % (c['kind'], c['f'] if c['kind'] not in ('st_foreign_lin', 'st_foreign_bound', 'st_foreign_abs', 'st_foreign_norm', 'mix_vars', 'obj_foreign', 'st_foreign_robust', 'forall_foreign_set', 'robobj_foreign_set_lo', 'robobj_foreign_set_hi', 'st_foreign_maxof', 'st_foreign_minof', 'st_foreign_Emaxof', 'concat_foreign_first', 'concat_foreign_last', 'rstack_foreign', 'vec_foreign', 'sumsqr_two_foreign') else c['f'] + '<-' + c['g']),
                             prop='C17', what='the misuse did not raise', **detail), props)
         else:
             stats['raised'] += 1
